@@ -1,7 +1,7 @@
 (* C11 - File operations.  Only statements, each closed by [exact] of a lemma
    proved in Proofs/Fs*.v, with Print Assumptions beneath. *)
 From UV Require Import Lib.Base Model.Fs Proofs.FsProofs Proofs.FsRoutesProofs Proofs.FsLedgerProofs
-  Proofs.FsPoolProofs.
+  Proofs.FsPoolProofs Proofs.FsRingProofs.
 
 (* ================= (b) buffer arithmetic ================= *)
 
@@ -263,3 +263,40 @@ Print Assumptions C11_cleanup_any_state.
 Theorem C11_pool_size_bounds : forall v : option (list N), (1 <= pool_size v <= 1024)%Z.
 Proof. exact pool_size_bounds. Qed.
 Print Assumptions C11_pool_size_bounds.
+
+(* ================= (e) room in the submission ring ================= *)
+
+(* uv__iou_get_sqe on the 64-entry SQPOLL ring, for every head/tail (free-running
+   32-bit counters, wrap-around included) with at most 63 entries outstanding:
+   a granted slot is tail mod 64, it is not one of the slots whose entry the
+   kernel has not consumed yet, and the bound of 63 outstanding entries is kept;
+   the request falls back to the thread pool exactly when 63 are outstanding. *)
+Theorem C11_ring_slot_never_overwrites :
+  forall r slot r', sq_inv r -> sq_submit SQMASK r = (Some slot, r') ->
+  ~ occupied r slot /\ sq_inv r' /\ sq_outstanding r' = (sq_outstanding r + 1)%Z /\
+  slot = (sq_tail r mod 64)%Z /\ sq_head r' = sq_head r.
+Proof. exact sq_grant_safe. Qed.
+Print Assumptions C11_ring_slot_never_overwrites.
+
+Theorem C11_ring_full_falls_back :
+  forall r, sq_inv r -> (fst (sq_submit SQMASK r) = None <-> sq_outstanding r = SQMASK).
+Proof. exact sq_refusal. Qed.
+Print Assumptions C11_ring_full_falls_back.
+
+(* the invariant holds along every interleaving of submissions and kernel progress *)
+Theorem C11_ring_invariant :
+  forall ops r, Forall (fun o => match o with SqConsume n => (0 <= n)%Z | SqSubmit => True end) ops ->
+  sq_inv r -> sq_inv (snd (sq_run SQMASK ops r)).
+Proof. exact sq_run_inv. Qed.
+Print Assumptions C11_ring_invariant.
+
+(* req->result is the errno of the system call (captured before any cleanup:
+   uv__free preserves errno) *)
+Theorem C11_result_is_call_errno :
+  forall (fs out : Type) (posix : pcall -> fs -> pres out * fs) (no_out : out) fuel op st r st',
+  plain_action op = true -> posix (work op) st = (r, st') ->
+  ((rc out r =? -1)%Z && (perrno out r =? EINTR)%Z) = false ->
+  fs_work fs out posix no_out fuel op st = (result_z out r, pout out r, st') /\
+  (rc out r = (-1)%Z -> result_z out r = (- perrno out r)%Z).
+Proof. exact result_is_call_errno. Qed.
+Print Assumptions C11_result_is_call_errno.
